@@ -203,6 +203,30 @@ class Recorder(object):
         self.log.append(("close",))
 
 
+class UndescribableFault(Exception):
+    """a hook fault whose text conversion fails (user exception classes with a broken __str__ exist)"""
+    def __str__(self):
+        raise ValueError("this exception cannot describe itself")
+    __repr__ = __str__
+
+
+def _raising_str(self):
+    raise ValueError("this exception cannot describe itself")
+
+
+class _UndescribableAssertion(AssertionError):
+    __str__ = _raising_str
+
+
+_UNDESC = {}
+
+
+def _undescribable(base):
+    if base not in _UNDESC:
+        _UNDESC[base] = type("Undescribable" + base.__name__, (base,), {"__str__": _raising_str})
+    return _UNDESC[base]
+
+
 class _SubAssertion(AssertionError):
     pass
 
@@ -295,6 +319,12 @@ def run_case(prog, cfg=None, faults=None, cleanups=None, hooks=False, record_eve
                     return
                 if kind == "failS":
                     raise _SubAssertion("boom %d" % n)
+                if kind == "failU":
+                    raise _UndescribableAssertion("boom %d" % n)
+                if kind == "pendingU":
+                    raise _undescribable(m["StepNotImplementedError"])("pending %d" % n)
+                if kind == "errorU":
+                    raise UndescribableFault("err %d" % n)
                 if kind == "pendingS":
                     from behave.exception import PendingStepError
                     raise PendingStepError("pending %d" % n)
@@ -385,6 +415,9 @@ def run_case(prog, cfg=None, faults=None, cleanups=None, hooks=False, record_eve
                         raise HookFault("fault in %s #%d" % (name, k))
                     if f == "assert":
                         raise AssertionError("fault in %s #%d" % (name, k))
+                    if f == "undesc":
+                        # an exception that cannot be described: behave formats the exception while handling it
+                        raise UndescribableFault("fault in %s #%d" % (name, k))
                     if f == "kbi":
                         # the user interrupts the run while a hook is executing (run_hook does not catch it)
                         raise KeyboardInterrupt()
